@@ -79,6 +79,9 @@ package mapping
 //@ func (*Unmarshaler).fillSlice
 //@   prop C05
 //@   opaque Deref, fillSliceValue, Unmarshal
+// every struct element of the list is decoded into a value newly made for that element (so nothing an earlier
+// element set - e.g. an optional field - can show through in a later one)
+//@   loop 1 iteration-ensures [struct-element-decoded-into-its-own-new-value] calls(u.Unmarshal) == 1 ==> calls(reflect.New) == 1 && arg(Interface, 0, 2) == ret(reflect.New) && arg(u.Unmarshal, 2) == ret(Interface, 0, 2) && arg(u.Unmarshal, 1) == unbox(ret(Interface, 0, 1), map[string]any)
 //@   ensures [field-gets-a-fresh-slice] calls(value.Set) == calls(value.Set, ret(reflect.MakeSlice)) && (calls(value.Set) >= 1 ==> calls(reflect.MakeSlice) == 1)
 //@   ensures [not-settable] !ret(CanSet) ==> result == errValueNotSettable && calls(Set) == 0
 
